@@ -608,8 +608,26 @@ where
 
 fn check_word(word: &[u8], alpha: &[X], level: u8, ctx: &mut Ctx) {
     let x = decode(word, alpha);
+    check_series(word, x, level, ctx)
+}
+
+/// the matrix on long structured series (DESIGN 5.14): wrapped rings, strided views and multi-chunk
+/// columns of 24 / 40 elements, reduced back-end set (level 0)
+fn matrix_long(thorough: bool, threads: usize) -> Ctx {
+    let lens: Vec<usize> = if thorough { vec![24, 40] } else { vec![24] };
+    let mut items: Vec<(String, Vec<X>)> = vec![];
+    for len in lens {
+        items.extend(rollcheck::structured_shapes(len, true).into_iter().enumerate().filter(|(i, _)| i % 4 == 0).map(|(_, s)| s));
+    }
+    par_items(&items, threads, |(_l, x), ctx| {
+        ctx.states += 1;
+        check_series(&[], x.clone(), 0, ctx)
+    })
+}
+
+fn check_series(word: &[u8], x: Vec<X>, level: u8, ctx: &mut Ctx) {
     ctx.fam("matrix").states += 1;
-    ctx.nontrivial("matrix", hash_bytes(word));
+    ctx.nontrivial("matrix", mix(hash_bytes(word), hash_u64s(&x.iter().map(|v| v.map_or(7, |a| a.to_bits())).collect::<Vec<_>>())));
     {
         let mut reference = reference::<f64>(&x, true);
         // numeric-only map operations on the plain Vec<f64>
@@ -702,10 +720,17 @@ fn main() {
             std::process::exit(2)
         });
         let mut ctx = Ctx::new();
-        check_word(&syms_from_json(&stored["case"]["word"]), &fam.alpha, 1, &mut ctx);
+        let w = syms_from_json(&stored["case"]["word"]);
+        let series = word_from_json(&stored["case"]["series"]);
+        if w.is_empty() && !series.is_empty() {
+            check_series(&[], series, 0, &mut ctx);
+        } else {
+            check_word(&w, &fam.alpha, 1, &mut ctx);
+        }
         std::process::exit(finish_replay(&run, &stored, ctx));
     }
     let mut total = explore_tree(&fam, run.threads);
+    total.merge(matrix_long(!run.quick(), run.threads));
     total.sample(json!({"cell": {"function": "ts_vstd", "input": "VecDeque(head=6,wrapped)", "output": "Array1/Buf", "series": [0, null, 3, 1], "w": 2}, "oracle": "identical to Vec -> Vec/Ret"}));
     total.sample(json!({"cell": {"function": "vquantile(0.25, Linear)", "input": "Float64Chunked[1, 2, 1]", "series": [1, 0, null, 3]}, "oracle": "identical to Vec"}));
     let meta = Meta {
